@@ -138,7 +138,13 @@ def keys_correspondence(ctx: Ctx, tables: dict) -> None:
     if diffs:
         # search: every differing key is examined with the property's oracle; the tie itself is reported
         # (without input) only when none of them is a concrete source inequivalence
-        concrete = [d for d in diffs if keys_search(ctx, tables, *d)]
+        seen: set = set()
+        concrete = []
+        for d in diffs:
+            if (d[0], d[1]) not in seen:
+                seen.add((d[0], d[1]))
+                if keys_search(ctx, tables, *d):
+                    concrete.append(d)
         if not concrete:
             kind, key, value, fam, real, mo = diffs[0]
             ctx.violation(f"parse_section correspondence broken on {kind} key `{key} = {value}`: code [{real}] model [{mo}] "
@@ -300,6 +306,8 @@ def real_process(ctx: Ctx, ini: list[str], cli: list[str], n: int) -> str:
             _, o = mm.process_options(["--config-file", cfg] + cli + [src], stdout=so, stderr=se, fscache=FileSystemCache())
     except SystemExit:
         return "exit: " + se.getvalue().strip()[:200]
+    except Exception as e:
+        return f"crash {type(e).__name__}"
     o.process_error_codes(error_callback=lambda m: None)
     vals = " ".join(f"{k}={show_val(getattr(o, k))}" for k in P_KEYS)
     dis = "+".join(c for c in P_CODES if any(e.code == c for e in o.disabled_error_codes))
